@@ -92,8 +92,11 @@ def cases(shard, rnd):
                        'colliding': True}
             elif k < 0.85:
                 yield {'t': 'table', 'v': gv.wide_table(rnd, 40)}
-            else:
+            elif k < 0.93:
                 yield {'t': 'array', 'v': gv.array(rnd, 0, 4, width=5)}
+            else:
+                yield {'t': 'table', 'v': gv.subclassify(
+                    gv.table(rnd, 0, 3, width=5), rnd, 0.9)}
     else:
         for idx in shard['indexes']:
             spec = refspec.METHODS[idx]
